@@ -30,9 +30,12 @@ for patch in "$HERE"/mutants/$PROP-*.patch "$HERE"/seeded/$PROP*/patch.diff "$HE
   [ -f "$patch" ] || continue
   name=$(basename "$patch" .patch)
   case "$patch" in */seeded/*) name="seed-$(basename "$(dirname "$patch")")";; esac
-  res=$("$HERE/tools/runmut.sh" "$patch" "$PROP" 2>&1 | head -1)
+  full=$(VERBOSE=1000 "$HERE/tools/runmut.sh" "$patch" "$PROP" 2>&1); res=$(echo "$full" | head -1)
   case "$name" in
-    neutral-*) case "$res" in *MISSED*) st="silent-as-expected";; *DETECTED*) st="FALSE-ALARM";; *) st="not-applicable";; esac;;
+    neutral-*) case "$res" in
+        *MISSED*) st="silent-as-expected";;
+        *DETECTED*) left=$(echo "$full" | grep OPEN | python3 "$HERE/tools/residual.py" "$name"); if [ -z "$left" ]; then st="documented-residual"; else st="FALSE-ALARM"; fi;;
+        *) st="not-applicable";; esac;;
     *) case "$res" in *DETECTED*) st="detected"; det=$((det+1)); app=$((app+1));; *MISSED*) st="MISSED"; app=$((app+1));; *) st="not-applicable";; esac;;
   esac
   echo "sensitivity $name: $st"
